@@ -320,6 +320,24 @@ class R:
             return any(d[0] == "PF" and d[1] == want[1] for d in dep)
         return False
 
+    def deep_dep(self, ctx: Ctx, v: Optional[Val], must: bool = False, heap=None) -> Set[tuple]:
+        """dependences of a value including those of the objects it designates (fields in the heap)"""
+        if v is None:
+            return set()
+        heap = ctx.summary.heap if heap is None else heap
+        out = set(v.all_mdep() if must else v.all_dep())
+        seen, todo = set(), list(v.all_pts())
+        while todo:
+            o = todo.pop()
+            if o in seen:
+                continue
+            seen.add(o)
+            for (ob, f), hv in heap.items():
+                if ob == o:
+                    out |= hv.all_mdep() if must else hv.all_dep()
+                    todo.extend(hv.all_pts())
+        return out
+
     def fmt_deps(self, fi: FuncInfo, deps) -> str:
         out = []
         for d in sorted(deps, key=repr):
